@@ -49,12 +49,12 @@ def wrap_spots(l):
             continue
         spots.append((m.start(1), m.end(1)))
     if not re.match(r"^\s*def\s+(fin\s+)?[A-Za-z_]\w*\s*\(", l):
-        m = re.search(r":=\s+(\S.*\S|\S)\s*$", l)
+        m = re.search(r"(?<!:):=\s+(\S.*\S|\S)\s*$", l)   # `:=`, not the `::=` of an inclusive slice
         if m:
             rhs = m.group(1)
             last = rhs.split()[-1]
             if last not in ("then", "=>", "do", "handle", "else") and not rhs.startswith(("match ", "\\")) and "=>" not in rhs \
-                    and l.count(":=") == 1:
+                    and l.count(":=") == 1 and "::" not in l:
                 spots.append((m.start(1), m.end(1)))
     for m in re.finditer(r" (?:\+|-|\*|//|mod) ([a-z_]\w*|\d+)(?![\w.(\[])", l):
         spots.append((m.start(1), m.end(1)))
